@@ -877,11 +877,11 @@ type c29StressCase struct {
 	B         int    `json:"b"`    // gate: waiters          queue: consumers
 	C         int    `json:"c"`    // gate: lockIfSet users  queue: 0
 	Iter      int    `json:"iter"`
-	Cancel    int    `json:"cancel"`      // every Cancel-th wait/get uses a context cancelled concurrently (0: never)
-	CloseAt   int    `json:"close_at"`    // queue: close after this many items were received (0: after all)
-	Seed      uint32 `json:"seed"`        // varies the per-goroutine choice of unlock(set)
-	InitSet   bool   `json:"init_set"`    // gate: initial condition
-	GoschedIn bool   `json:"gosched_in"`  // yield while holding the gate
+	Cancel    int    `json:"cancel"`     // every Cancel-th wait/get uses a context cancelled concurrently (0: never)
+	CloseAt   int    `json:"close_at"`   // queue: close after this many items were received (0: after all)
+	Seed      uint32 `json:"seed"`       // varies the per-goroutine choice of unlock(set)
+	InitSet   bool   `json:"init_set"`   // gate: initial condition
+	GoschedIn bool   `json:"gosched_in"` // yield while holding the gate
 }
 
 func c29StressGen(t *rapid.T) c29StressCase {
